@@ -4,6 +4,8 @@ import Sigc.Lemmas.Frames
 import Sigc.Lemmas.StepConn
 import Sigc.Lemmas.StepHandles
 import Sigc.Lemmas.StepTrack
+import Sigc.Lemmas.StepWF3
+import Sigc.Run
 import Sigc.Spec
 /-!
 # C18 — signals chain through make_slot(); a dying trackable_signal unhooks itself
@@ -13,9 +15,13 @@ variables hold for every state; theorems about list cells need the well-formedne
 (impl keys and cell ids unique: what the allocator guarantees; decidable, preserved by
 `invalidateTrackable` and `gcImpl`, see Lemmas/StepTrack.lean); `copy_is_distinct` needs the freshness
 `TracksBelow` (every trackable identity referred to by a functor is below `next`; decidable).
+Both are consequences of the invariant `Sigc.StepWF.WF`, which holds in the initial state and is preserved
+by every operation and every interpreter function (Lemmas/StepWF*.lean: `runTop_WF`, `execOp_WF`, …), so
+the `…_run` corollaries at the end state the same facts for every state reached by any run of any
+program, and the `…_wf` forms for every state inside a run (also inside emissions).
 -/
 namespace Sigc.C18
-open Sigc.Model Sigc.StepConn Sigc.StepHandles Sigc.StepTrack
+open Sigc.Model Sigc.StepConn Sigc.StepHandles Sigc.StepTrack Sigc.StepWF
 
 /-- invoking a `make_slot()` forwarder emits the target signal object with the same argument and
     yields that emission's outcome and result, for every program and fuel -/
@@ -276,6 +282,65 @@ example :
     s2.map (fun x => (x.1.S.map (fun p => p.2.slot.empty), x.1.impls.map (fun p => p.2.cells.map (·.id)), x.1.C)) =
       some ([false], [[4], [5, 12]], [(0, some 5)]) := by
   decide
+
+/-! ## top-level forms: every run of every program -/
+
+/-- **dies_with_object** in every well-formed state (every state in which any operation of any run
+    executes, also from inside an emission of `b` that is currently forwarding — `execOp_WF`): the three
+    notifying operations leave nothing referring to the trackable_signal object, and keep well-formedness -/
+theorem dies_with_object_wf (s s' : St) (r : String) (op : Op) (h0 : Handle) (hw : WF s)
+    (hop : (∃ g, op = .delG g ∧ aget s.G g = some h0) ∨
+           (∃ j i, op = .mvG j i ∧ aget s.G i = some h0 ∧ aget s.G j = none ∧ h0.fl.isAcc = false) ∨
+           (∃ j i d, op = .masgG j i ∧ aget s.G j = some d ∧ aget s.G i = some h0 ∧ d.fl = h0.fl ∧ d.lvl = h0.lvl ∧
+              j ≠ i ∧ h0.fl.isAcc = false ∧ h0.impl.isSome = true))
+    (ht : h0.fl.isTrackable = true) (h : stepSimple s op = some (s', r)) :
+    r = "ok" ∧ NoTracker s' h0.trk ∧ WF s' := by
+  have hw' : WF s' := stepSimple_WF hw h
+  rcases hop with ⟨g, rfl, hg⟩ | ⟨j, i, rfl, hi, hj, hacc⟩ | ⟨j, i, d, rfl, hj, hi, hfl, hlvl, hji, hacc, hsome⟩
+  · obtain ⟨a, b, _⟩ := delG_dies_with_object s s' r g h0 hg ht hw.uniqueCells h
+    exact ⟨a, b, hw'⟩
+  · obtain ⟨a, b, _⟩ := mvG_dies_with_object s s' r j i h0 hi hj ht hacc hw.uniqueCells h
+    exact ⟨a, b, hw'⟩
+  · obtain ⟨a, b, _⟩ := masgG_dies_with_object s s' r j i d h0 hj hi hfl hlvl hji ht hacc hsome hw.uniqueCells h
+    exact ⟨a, b, hw'⟩
+
+example : WF exStT := by decide
+
+/-- **dies_with_object, for every run**: in the state reached by running any lines of any program at any
+    fuel, destroying a trackable_signal object leaves no slot variable and no cell of any list referring
+    to it — `b` can never emit the destroyed signal -/
+theorem delG_dies_with_object_run (f : Nat) (P : Prog) (ls : List Line) (s s' : St) (r : String) (g : Nat) (h0 : Handle)
+    (hrun : runTop f P {} ls = some s) (hg : aget s.G g = some h0) (ht : h0.fl.isTrackable = true)
+    (h : stepSimple s (.delG g) = some (s', r)) :
+    r = "ok" ∧ NoTracker s' h0.trk :=
+  let ⟨a, b, _⟩ := delG_dies_with_object s s' r g h0 hg ht (reachable_UniqueCells f P ls s hrun) h
+  ⟨a, b⟩
+
+/-- … and so does move construction from it -/
+theorem mvG_dies_with_object_run (f : Nat) (P : Prog) (ls : List Line) (s s' : St) (r : String) (j i : Nat) (h0 : Handle)
+    (hrun : runTop f P {} ls = some s) (hi : aget s.G i = some h0) (hj : aget s.G j = none)
+    (ht : h0.fl.isTrackable = true) (hacc : h0.fl.isAcc = false) (h : stepSimple s (.mvG j i) = some (s', r)) :
+    r = "ok" ∧ NoTracker s' h0.trk :=
+  let ⟨a, b, _⟩ := mvG_dies_with_object s s' r j i h0 hi hj ht hacc (reachable_UniqueCells f P ls s hrun) h
+  ⟨a, b⟩
+
+/-- **copy_is_distinct, for every run**: in every reachable state, copying a signal object and destroying
+    the copy changes no slot variable, no list and no connection -/
+theorem copy_is_distinct_run (f : Nat) (P : Prog) (ls : List Line) (s s1 s2 : St) (r1 r2 : String) (j i : Nat) (h0 : Handle)
+    (hrun : runTop f P {} ls = some s) (hi : aget s.G i = some h0) (hj : aget s.G j = none)
+    (h1 : stepSimple s (.cpG j i) = some (s1, r1)) (h2 : stepSimple s1 (.delG j) = some (s2, r2)) :
+    r2 = "ok" ∧ s2.S = s.S ∧ s2.impls = s1.impls ∧ s2.C = s.C ∧ s2.K = s.K :=
+  let ⟨a, b, c, d, e, _⟩ := copy_is_distinct s s1 s2 r1 r2 j i h0 hi hj (reachable_TracksBelow f P ls s hrun) h1 h2
+  ⟨a, b, c, d, e⟩
+
+/-- a run: `newG 0 TI; newG 1 I; connfn 0 1 (fwd 0); cpG 2 0; delG 2; sizeq 1 → 1; delG 0; sizeq 1 → 0`
+    (destroying the copy keeps the forwarder, destroying the original removes it) -/
+example :
+    let run := fun (s : Option (St × String)) (op : Op) => s.bind (fun x => stepSimple x.1 op)
+    let s5 := [Op.newG 0 (some .TI), .newG 1 (some .I), .connfn 0 1 (.fwd 0) false, .cpG 2 0, .delG 2].foldl run (some ({}, ""))
+    (run s5 (.sizeq 1)).map (·.2) = some "1" ∧ (run (run s5 (.delG 0)) (.sizeq 1)).map (·.2) = some "0" := by
+  decide
+
 
 /-! ## the specification `S` -/
 
